@@ -292,6 +292,9 @@ class InterpreterBase:
 
     def evaluate_notstatement(self, cur: mparser.NotNode) -> InterpreterObject:
         v = self.evaluate_statement(cur.value)
+        # `not meson.version().version_compare(...)` being true says the version
+        # is NOT in that range: it must not narrow the if-block to the range.
+        self.tmp_meson_version = None
         if v is None:
             raise InvalidCodeOnVoid('not')
         if isinstance(v, Disabler):
@@ -385,8 +388,12 @@ class InterpreterBase:
             return l
         l_bool = l.operator_call(MesonOperator.BOOL, None)
         if l_bool:
+            # `version_compare(...) or x` can be true for a version outside the
+            # range: the if-block must not be narrowed by either operand.
+            self.tmp_meson_version = None
             return self._holderify(l_bool)
         r = self.evaluate_statement(cur.right)
+        self.tmp_meson_version = None
         if r is None:
             raise mesonlib.MesonException('Cannot compare a void statement on the right-hand side')
         if isinstance(r, Disabler):
